@@ -38,6 +38,11 @@ const Clock0 = int64(1_000_000) * 1_000_000_000
 
 func NewEnv(opts absnfs.ExportOptions, maxHandles int) (*Env, error) {
 	absnfs.VerifSetClock(Clock0)
+	return NewEnvKeepClock(opts, maxHandles)
+}
+
+// NewEnvKeepClock builds an environment without resetting the virtual clock.
+func NewEnvKeepClock(opts absnfs.ExportOptions, maxHandles int) (*Env, error) {
 	fs := specfs.New()
 	fs.Clock = func() time.Time { return time.Unix(0, absnfs.VerifClock()) }
 	if opts.Squash == "" {
@@ -273,6 +278,7 @@ type Obs struct {
 	EOF     bool
 	Raw     []byte // result bytes
 	Wire    []byte // whole reply as encoded for the wire
+	Verf    *uint64 // write verifier of WRITE / COMMIT replies
 	Trail   int    // undecoded trailing bytes (-1 = short)
 }
 
@@ -408,7 +414,8 @@ func Decode(proc string, data []byte) *Obs {
 		d.wcc(o)
 		if ok {
 			o.Nums = append(o.Nums, uint64(d.u32()), uint64(d.u32()))
-			d.u64() // verf
+			v := d.u64()
+			o.Verf = &v
 		}
 	case "CREATE", "MKDIR", "SYMLINK", "MKNOD":
 		if ok {
@@ -481,7 +488,8 @@ func Decode(proc string, data []byte) *Obs {
 	case "COMMIT":
 		d.wcc(o)
 		if ok {
-			d.u64()
+			v := d.u64()
+			o.Verf = &v
 		}
 	case "MNT":
 		if ok {
